@@ -1,8 +1,36 @@
 (* C08 - Binary (de)serialisation is lossless, canonical and rejects malformed input.
-   Property theorems only; models in Ser/Serialize.v (serialize.rs as written, constants and
-   prefix expressions regenerated from /repo by the translator), proofs in Ser/SerializeProofs.v. *)
+   Property theorems only. Model: Ser/Serialize.v (serialize.rs as written: the explicit-stack
+   encoder, atom_from_stream, the op-stack decoder whose per-op errors are ignored, Stream::read
+   short reads, int_from_bytes with get_u32) with the size classes, prefix expressions, markers,
+   limits and the get_u32 expression regenerated from /repo's source by the translator
+   (Gen/Consts.v). Reference codec: spec_encode / spec_decode (clvmr serde's format), tied to clvmr
+   itself by the consensus tie of the check. *)
 From CV Require Import Base.Prelude Base.Val Base.Bytes Gen.Consts Ser.Serialize Ser.SerializeProofs.
 
-(* the encoder emits exactly the consensus (clvmr serde) bytes, for atoms of every representable length *)
+(* the encoder emits exactly the consensus bytes, for atoms of every representable length *)
 Theorem C08_encode_is_consensus : forall v e, spec_encode v = Some e -> encode v = Some e.
 Proof. exact encode_spec. Qed.
+
+(* serialise then deserialise returns the same value (and leaves what follows untouched) *)
+Theorem C08_decode_encode : forall v e rest, spec_encode v = Some e -> decode (e ++ rest) = Some (v, rest).
+Proof. exact decode_encode. Qed.
+
+Corollary C08_roundtrip : forall v e, encode v = Some e -> spec_encode v <> None -> decode e = Some (v, []).
+Proof.
+  intros v e He Hs. destruct (spec_encode v) as [e'|] eqn:E; [|contradiction].
+  pose proof (encode_spec v e' E) as He'. rewrite He in He'. inversion He'; subst e'.
+  rewrite <- (app_nil_r e). apply decode_encode. exact E.
+Qed.
+
+(* deserialising any byte string either fails or returns exactly what the consensus deserialiser
+   returns for it (value and position): truncated or over-long prefixes never become another value *)
+Theorem C08_decode_sound : forall s v rest, wf_bytes s = true ->
+  decode s = Some (v, rest) -> exists g, spec_decode g s = Some (v, rest).
+Proof. exact decode_sound. Qed.
+
+(* non-vacuity: a non-trivial value meets the hypotheses, and the decoder does reject things *)
+Example C08_example_encode :
+  spec_encode (Cons (Atom [1;2;3]) (Cons (Atom [200]) (Atom []))) = Some [255; 131; 1; 2; 3; 255; 129; 200; 128].
+Proof. vm_compute. reflexivity. Qed.
+Example C08_example_reject : decode [255; 1] = None /\ decode [254; 0; 0; 0; 0; 0; 1; 65] = None /\ decode [193; 0] = None.
+Proof. vm_compute. repeat split. Qed.
